@@ -27,6 +27,24 @@ CHECKS = {
         "Trusted: math.comb based index formula and a textbook Levenshtein DP (self-tested against the recursive definition).",
         "DESIGN.md §3 C19",
     ),
+    "C07": (
+        "post-condition oracle on readselection's result + invariant/temporal/conservation monitors on the interposed "
+        "coverage monitor (cap after every insertion, check-before-insert, exactly-once charging) over generated and "
+        "bounded-exhaustive read sets; ASan/UBSan lane",
+        "Thousands of generated read sets and every multiset of <=4 reads over 4 variants are run through the real "
+        "selection with the coverage-monitor class replaced by a recording subclass; cap, maximality and the charging "
+        "discipline are judged on every execution.",
+        "Trusted: span = first..last covered variant as the statement defines it; the recording subclass delegates to the real CovMonitor.",
+        "DESIGN.md §3 C07",
+    ),
+    "C13": (
+        "offline checkers over output files: textual phase scan + htslib record differ + idempotence monitor on "
+        "generated hostile VCFs run through the real unphase (in-process and CLI subprocess)",
+        "Thousands of generated VCFs covering every genotype shape of the quantifier are unphased by the real code; "
+        "success, absence of phase statements, record conservation and idempotence are judged per file.",
+        "Trusted: pysam/htslib parsing for the differ (a file htslib itself cannot copy is skipped and counted); own text parser for the scan.",
+        "DESIGN.md §3 C13",
+    ),
     "C18": (
         "reference-model monitors (dict heap model, BFS components) + icontract forest invariant over "
         "bounded-exhaustive and random operation histories; ASan/UBSan lane",
